@@ -10,27 +10,23 @@
    GZI   noodles-bgzf/src/gzi/async/io/reader/index.rs  vs  gzi/io/reader/index.rs
          read_u64_le (count), count x (read_u64_le, read_u64_le), then read_u8: a byte =
          InvalidData "unexpected trailing data", UnexpectedEof = the index.  The two perform the
-         same reads; the ASYNC reader alone starts with `Vec::with_capacity(len)` on the count of
-         the file: len * 16 > isize::MAX (len >= 2^59) panics with "capacity overflow" ([GPanic];
-         a smaller count asks the allocator for len * 16 bytes, which the model assumes granted).
-         The sync reader collects without a size hint.
+         same reads and (since /repo f641783: the async reader no longer pre-allocates
+         `Vec::with_capacity(count)`) nothing else: one program, [p_gzi].
    BAI   noodles-bam/src/bai/async/io/reader/index/** vs bai/io/reader/index/** (the sync reader
          takes read_chunks / read_metadata from noodles-csi/src/io/reader/index/reference_sequences).
          read_exact 4 (magic), read_u32_le n_ref, per reference: read_u32_le n_bin, per bin
          read_u32_le id, then the metadata pseudo-bin (id 37450: read_u32_le n_chunk = 2, four
-         read_u64_le) or read_u32_le n_chunk + n_chunk x two read_u64_le; a second metadata bin / a
-         repeated bin id is InvalidData at once; read_u32_le n_intv + n_intv x read_u64_le; at the
-         end read_u64_le n_no_coor where UnexpectedEof means None.  Same reads on both sides.  Two
-         differences, both in the chunk list / metadata of a bin ([sy] = true is the sync reader):
-           - the sync reader wraps EVERY error of read_chunks / read_metadata in InvalidData
-             (`.map_err(|e| io::Error::new(InvalidData, e))`, bins.rs), so the end of the data
-             inside a chunk list or the metadata is InvalidData there and UnexpectedEof in the
-             async reader;
-           - the sync reader reads n_chunk as i32 and rejects a negative one (InvalidData), the
-             async reader reads u32 and loops (it then runs out of data: UnexpectedEof).
-   A read_exact whose UnexpectedEof is caught or re-labelled is written PTake n + a length test
-   ([ix_rd true], the trailing n_no_coor, the GZI read_u8): read_exact stores what arrives until
-   the buffer is full or the source ends, which is what PTake n returns.
+         read_u64_le) or read_i32_le n_chunk (negative = InvalidData) + n_chunk x two read_u64_le;
+         a second metadata bin / a repeated bin id is InvalidData at once; read_u32_le n_intv +
+         n_intv x read_u64_le; at the end read_u64_le n_no_coor where UnexpectedEof means None.
+         Same reads on both sides.  Since /repo d76b74b the sync reader keeps the kind of an
+         underlying io::Error of read_chunks / read_metadata (it used to relabel every error as
+         InvalidData) and the async reader reads n_chunk as an i32 like the sync one (it used to
+         read a u32 and loop): the flag [sy] (true = the sync reader) no longer changes anything
+         ([ix_rd] never wraps, the i32 test is on both sides) and [p_bai true] = [p_bai false].
+   A read_exact whose UnexpectedEof is caught by the caller is written PTake n + a length test
+   (the trailing n_no_coor, the GZI read_u8): read_exact stores what arrives until the buffer is
+   full or the source ends, which is what PTake n returns.
    Loops over a count of the file are iterated on the BINARY count ([ix_iter]) so that a count
    of 2^64 - 1 costs nothing before the data runs out.  64-bit target (usize::try_from of a u32 /
    u64 never fails).  Values are C17's index types (NV.Index.Layout).  Definitions only. *)
@@ -51,8 +47,9 @@ Definition ix_le {A : Type} (n : nat) (k : N -> prog A) : prog A :=
 Definition ix_le_as {A : Type} (e : ekind) (n : nat) (k : N -> prog A) : prog A :=
   PTake n (fun b => if (length b <? n)%nat then PFail e else k (le_dec b)).
 
-Definition ix_rd {A : Type} (wrap : bool) (n : nat) (k : N -> prog A) : prog A :=
-  if wrap then ix_le_as InvalidData n k else ix_le n k.
+(* a field read inside a bin: the sync reader's map_err keeps the kind of an I/O error (d76b74b),
+   so neither side re-labels; [wrap] is kept for the call sites only *)
+Definition ix_rd {A : Type} (wrap : bool) (n : nat) (k : N -> prog A) : prog A := ix_le n k.
 
 (* `for _ in 0..n { s = body(s)? }`, n a count of the file *)
 Fixpoint ix_iter_pos {St : Type} (body : St -> prog St) (p : positive) (s : St) : prog St :=
@@ -81,10 +78,7 @@ Fixpoint bytes_eqb (a b : list N) : bool :=
 
 (* ---- GZI ---------------------------------------------------------------------------------- *)
 
-Inductive gzi_out := GIndex (l : list Layout.chunkp) | GPanic.
-
-(* Vec<(u64, u64)>::with_capacity(len) panics when len * 16 exceeds isize::MAX *)
-Definition gzi_cap_limit : N := 2 ^ 59.
+Inductive gzi_out := GIndex (l : list Layout.chunkp).
 
 Definition gzi_pair_body (acc : list Layout.chunkp) : prog (list Layout.chunkp) :=
   ix_le 8 (fun c => ix_le 8 (fun u => PRet (acc ++ [(c, u)]))).
@@ -94,9 +88,7 @@ Definition gzi_tail (l : list Layout.chunkp) : prog gzi_out :=
   PTake 1 (fun b => match b with [] => PRet (GIndex l) | _ :: _ => PFail InvalidData end).
 
 Definition p_gzi (asy : bool) : prog gzi_out :=
-  ix_le 8 (fun n =>
-    if asy && (gzi_cap_limit <=? n) then PRet GPanic
-    else p_bind (ix_iter gzi_pair_body n []) gzi_tail).
+  ix_le 8 (fun n => p_bind (ix_iter gzi_pair_body n []) gzi_tail).
 
 (* ---- BAI ---------------------------------------------------------------------------------- *)
 
@@ -105,7 +97,7 @@ Definition bai_chunk_body (sy : bool) (acc : list Layout.chunkp) : prog (list La
 
 Definition bai_chunks (sy : bool) : prog (list Layout.chunkp) :=
   ix_rd sy 4 (fun n =>
-    if sy && negb (n <? 2147483648) then PFail InvalidData
+    if negb (n <? 2147483648) then PFail InvalidData
     else ix_iter (bai_chunk_body sy) n []).
 
 Definition bai_metadata (sy : bool) : prog Layout.metadata :=
@@ -175,7 +167,6 @@ Definition ix_err_code (e : ekind) : N :=
 Definition gzi_obs (r : rr gzi_out) : ix_obs (list (N * N)) :=
   match r with
   | RVal (GIndex l) => IxVal l
-  | RVal GPanic => IxPanic
   | RErr e => IxErrKind (ix_err_code e)
   end.
 
